@@ -1,6 +1,735 @@
+//! chansim: `low_level::channel::Channel` under concurrent / nested senders and receivers.
+//! Serves C06 (5-slot FIFO semantics), C07 (cells never raced, values dropped exactly once),
+//! C08 (operations never block or panic, also nested).
+
+use std::panic::{catch_unwind, AssertUnwindSafe};
+use std::sync::Arc;
+
+use sighook_shim::sim::{self, Config, InjectCtx, Policy, ShimGuard, VC};
+use signal_hook::low_level::channel::Channel;
+
 use crate::driver::RunSpec;
-use crate::props::Prop;
-pub const PROPS: &[Prop] = &[];
-pub fn run(_spec: &RunSpec) -> ! {
-    sighook_shim::sim::harness_error("engine not built yet")
+use crate::props::*;
+use crate::util::*;
+
+pub const CHAN_REAL: &[&str] = &["src/low_level/channel.rs: real code from /repo (queue words through the shim atomics)", "payload destructors (token type with Drop)"];
+pub const CHAN_STUB: &[&str] = &[
+    "thread scheduling (simulator baton)",
+    "visibility of atomics: view model honouring the declared Relaxed/Acquire/Release orderings (stale reads in WM runs)",
+    "a signal handler's send = a nested send injected at a scheduling point of the interrupted operation on the same thread",
+];
+
+pub const PROPS: &[Prop] = &[
+    Prop {
+        id: "C06",
+        engine: Engine::Chan,
+        level: "exploration",
+        sweep_runs: 0,
+        quick_runs: 250_000,
+        thorough_runs: 6_000_000,
+        rule: "1-3 producer threads (2-7 sends each), 1-2 consumers, nested sends/recvs injected inside send/recv of the same thread, final sequential drain; a quarter of the runs are sequential scripts checked against the exact 5-deep drop-when-full FIFO; concurrent histories are checked with the definite-order clauses (a)-(e) (step order in SC runs, happens-before in WM runs). Non-trivial: a CAS on a queue word failed for a real reason (two operations overlapped) or a nested operation ran. Distinct: by schedule signature.",
+        probes: &[
+            (E_CHAN_FULL_DISCARD, "send_discarded_because_full"),
+            (E_CHAN_EMPTY_NONE, "recv_returned_none"),
+            (E_CHAN_NESTED, "nested_operation_ran"),
+            (E_CHAN_POS34, "queue_positions_3_4_used"),
+            (E_CAS_REAL_FAIL, "cas_failed_for_a_real_reason"),
+            (E_CHAN_OPS, "channel_operations"),
+        ],
+        real: CHAN_REAL,
+        stub: CHAN_STUB,
+        assumptions: &["weak-memory layer under-approximates C11: append-only modification order, RMWs read the newest message, no load buffering"],
+    },
+    Prop {
+        id: "C07",
+        engine: Engine::Chan,
+        level: "exploration",
+        sweep_runs: 0,
+        quick_runs: 250_000,
+        thorough_runs: 6_000_000,
+        rule: "same runs as C06; oracles: FastTrack-style happens-before check on every cell access built from the channel's declared orderings (release sequences through RMWs), and per-token drop accounting (exactly once; site = receiver, own full send, or channel drop). Non-trivial: two different threads accessed the same cell during the run or a nested operation ran. Distinct: by schedule signature.",
+        probes: &[(E_CHAN_FULL_DISCARD, "send_discarded_because_full"), (E_CHAN_NESTED, "nested_operation_ran"), (E_CHAN_OPS, "channel_operations"), (E_CAS_REAL_FAIL, "cas_failed_for_a_real_reason")],
+        real: CHAN_REAL,
+        stub: CHAN_STUB,
+        assumptions: &["same-thread nested accesses are invisible to vector clocks; they are covered by the drop-site rule and C06 (a)/(e)"],
+    },
+    Prop {
+        id: "C08",
+        engine: Engine::Chan,
+        level: "fault_enumeration",
+        sweep_runs: 4320,
+        quick_runs: 120_000,
+        thorough_runs: 2_000_000,
+        rule: "sweep: channel state in {empty, 1, 4, full, another thread frozen mid-send, another thread frozen mid-recv} x op in {send, recv} x every scheduling-point index of the op x nested {none, send, recv} x weak-CAS spurious-failure rate {0, 30%, 60%} (plus Channel::new under spurious failures), everybody else frozen; then seeded search with freeze and spurious-CAS faults. Oracles: own-step bound 16 + 4 per spurious failure, no spin/yield/lock, no panic. Non-trivial: the operation was interrupted by a nested operation, suffered a spurious failure, or ran with another thread frozen mid-operation. Distinct: by schedule signature.",
+        probes: &[(E_CHAN_NESTED, "nested_operation_ran"), (E_SWEEP_OUT_OF_RANGE, "sweep_index_beyond_operation_end"), (E_SOLO_COMPLETIONS, "operations_completed_solo_with_others_frozen"), (E_CHAN_OPS, "channel_operations")],
+        real: CHAN_REAL,
+        stub: CHAN_STUB,
+        assumptions: &["a bounded number (<= 3 in a row) of spurious weak-CAS failures"],
+    },
+];
+
+#[derive(Clone, Debug, PartialEq)]
+enum OpK {
+    Send(usize),
+    Recv(Option<usize>),
 }
+
+#[derive(Clone, Debug)]
+struct OpRec {
+    kind: OpK,
+    tid: usize,
+    inv_seq: u64,
+    ret_seq: u64,
+    inv_vc: VC,
+    ret_vc: VC,
+    nested: bool,
+    done: bool,
+    /// token was dropped inside this very send
+    discarded: bool,
+}
+
+#[derive(Clone, Debug, Default)]
+struct TokSt {
+    drops: u32,
+    /// 0 = not dropped, 1 = consumer/harness, 2 = own send (discard), 3 = channel drop, 4 = foreign
+    site: u8,
+    foreign_desc: String,
+}
+
+struct World {
+    seq: u64,
+    ops: Vec<OpRec>,
+    toks: Vec<TokSt>,
+    opstack: Vec<Vec<usize>>,
+    consuming: Vec<bool>,
+    chan_dropping: bool,
+    chan: Option<Arc<Channel<Tok>>>,
+    wm: bool,
+    nested_kinds: u32,
+    solo_target: Option<usize>,
+    nested_cost: Vec<u64>,
+}
+
+static mut WORLD: *mut World = std::ptr::null_mut();
+fn w() -> &'static mut World {
+    unsafe { &mut *WORLD }
+}
+
+struct Tok {
+    id: usize,
+}
+
+impl Drop for Tok {
+    fn drop(&mut self) {
+        let _g = ShimGuard::new();
+        let x = w();
+        let me = sim::tid();
+        let me = if me == usize::MAX { 0 } else { me };
+        let t = &mut x.toks[self.id];
+        t.drops += 1;
+        x.seq += 1;
+        sim::log(UE_TOK_DROP, self.id as u64, t.drops as u64);
+        if t.drops > 1 {
+            sim::report("C07", "value-dropped-twice", &format!("token #{} was dropped {} times", self.id, t.drops), true);
+        }
+        if x.chan_dropping {
+            t.site = 3;
+        } else if x.consuming[me] {
+            t.site = 1;
+        } else {
+            match x.opstack[me].last() {
+                Some(op) => {
+                    let o = &mut x.ops[*op];
+                    if o.kind == OpK::Send(self.id) {
+                        t.site = 2;
+                        o.discarded = true;
+                    } else {
+                        t.site = 4;
+                        t.foreign_desc = format!("{:?} on T{}", o.kind, me);
+                    }
+                }
+                None => {
+                    t.site = 4;
+                    t.foreign_desc = format!("outside any operation on T{}", me);
+                }
+            }
+        }
+        if t.site == 4 {
+            let d = t.foreign_desc.clone();
+            sim::report("C07", "value-destroyed-by-foreign-operation", &format!("token #{} was destroyed inside a foreign operation: {}", self.id, d), true);
+        }
+    }
+}
+
+fn op_begin(kind: OpK, nested: bool) -> usize {
+    let _g = ShimGuard::new();
+    let x = w();
+    let me = sim::tid();
+    x.seq += 1;
+    let vc = sim::tick();
+    x.ops.push(OpRec { kind, tid: me, inv_seq: x.seq, ret_seq: 0, inv_vc: vc, ret_vc: vc, nested, done: false, discarded: false });
+    let id = x.ops.len() - 1;
+    x.opstack[me].push(id);
+    sim::count(E_CHAN_OPS, 1);
+    id
+}
+
+fn op_end(id: usize, result: Option<Option<usize>>) {
+    let _g = ShimGuard::new();
+    let x = w();
+    let me = sim::tid();
+    x.seq += 1;
+    let vc = sim::tick();
+    let o = &mut x.ops[id];
+    o.ret_seq = x.seq;
+    o.ret_vc = vc;
+    o.done = true;
+    if let Some(r) = result {
+        o.kind = OpK::Recv(r);
+    }
+    x.opstack[me].pop();
+}
+
+/// One send with all per-operation oracles.
+fn do_send(nested: bool) {
+    let chan = w().chan.as_ref().unwrap().clone();
+    let tok = {
+        let _g = ShimGuard::new();
+        let x = w();
+        x.toks.push(TokSt::default());
+        x.toks.len() - 1
+    };
+    let id = op_begin(OpK::Send(tok), nested);
+    sim::log(UE_SEND, tok as u64, nested as u64);
+    let own0 = sim::own_steps();
+    let spur0 = sim::cas_spurious_fired();
+    let nest0 = w().nested_cost[sim::tid()];
+    let r = catch_unwind(AssertUnwindSafe(|| chan.send(Tok { id: tok })));
+    step_bound("send", own0, spur0, nested, nest0);
+    if r.is_err() {
+        let _g = ShimGuard::new();
+        sim::report("C08", "operation-panicked", &format!("send panicked: {}", sighook_shim::shm::get_str(&sighook_shim::shm::get().panic_msg)), true);
+    }
+    op_end(id, None);
+    let _g = ShimGuard::new();
+    if w().ops[id].discarded {
+        sim::count(E_CHAN_FULL_DISCARD, 1);
+    }
+}
+
+fn do_recv(nested: bool) -> Option<usize> {
+    let chan = w().chan.as_ref().unwrap().clone();
+    let id = op_begin(OpK::Recv(None), nested);
+    let own0 = sim::own_steps();
+    let spur0 = sim::cas_spurious_fired();
+    let nest0 = w().nested_cost[sim::tid()];
+    let r = catch_unwind(AssertUnwindSafe(|| chan.recv()));
+    step_bound("recv", own0, spur0, nested, nest0);
+    let got = match r {
+        Ok(v) => v,
+        Err(_) => {
+            let _g = ShimGuard::new();
+            sim::report("C08", "operation-panicked", &format!("recv panicked: {}", sighook_shim::shm::get_str(&sighook_shim::shm::get().panic_msg)), true);
+            None
+        }
+    };
+    let tid_ = got.as_ref().map(|t| t.id);
+    sim::log(UE_RECV, tid_.map(|t| t as u64).unwrap_or(u64::MAX), nested as u64);
+    op_end(id, Some(tid_));
+    {
+        let _g = ShimGuard::new();
+        let x = w();
+        match tid_ {
+            None => sim::count(E_CHAN_EMPTY_NONE, 1),
+            Some(t) => {
+                if t >= x.toks.len() {
+                    sim::report("C06", "received-value-never-sent", &format!("recv returned token #{} which was never sent", t), true);
+                }
+                // (a) at most once
+                let n = x.ops.iter().filter(|o| o.kind == OpK::Recv(Some(t))).count();
+                if n > 1 {
+                    sim::report("C06", "value-received-twice", &format!("token #{} was returned by {} receive operations", t, n), true);
+                }
+            }
+        }
+        let me = sim::tid();
+        x.consuming[me] = true;
+    }
+    drop(got);
+    {
+        let _g = ShimGuard::new();
+        let me = sim::tid();
+        w().consuming[me] = false;
+    }
+    tid_
+}
+
+/// C08: with every other thread paused an operation finishes within a small number of own steps.
+/// The bound is checked whenever nothing else ran in between (own steps == global steps elapsed)
+/// and always for nested operations (nothing else can run on behalf of an interrupted thread).
+fn step_bound(what: &str, own0: u64, spur0: u64, nested: bool, nest0: u64) {
+    let _g = ShimGuard::new();
+    let me = sim::tid();
+    // own steps of this operation, without those of operations nested inside it
+    let own = sim::own_steps() - own0 - (w().nested_cost[me] - nest0);
+    if nested {
+        w().nested_cost[me] += sim::own_steps() - own0;
+    }
+    let spur = sim::cas_spurious_fired() - spur0;
+    // each concurrent real CAS failure legitimately costs a retry; count them via the probe
+    let bound = 16 + 4 * spur;
+    let real_fail_budget = sighook_shim::shm::get().counters[E_CAS_REAL_FAIL] * 4;
+    if own > bound + real_fail_budget {
+        sim::report("C08", "operation-step-bound", &format!("{} made {} own steps (bound {} + {} for real CAS failures)", what, own, bound, real_fail_budget), true);
+    }
+}
+
+fn prec(a: &OpRec, b: &OpRec, wm: bool) -> bool {
+    // a.ret definitely before b.inv
+    if !a.done {
+        return false;
+    }
+    if a.tid == b.tid || !wm {
+        return a.ret_seq < b.inv_seq;
+    }
+    b.inv_vc[a.tid] >= a.ret_vc[a.tid]
+}
+
+fn send_op_of(ops: &[OpRec], tok: usize) -> Option<usize> {
+    ops.iter().position(|o| o.kind == OpK::Send(tok))
+}
+
+/// The history oracle: clauses (a)-(e) of C06 / C07's conservation.
+fn check_history() {
+    let x = w();
+    let wm = x.wm;
+    let ops = &x.ops;
+    let ntok = x.toks.len();
+    // who received what
+    let mut recv_of: Vec<Vec<usize>> = vec![Vec::new(); ntok];
+    for (i, o) in ops.iter().enumerate() {
+        if let OpK::Recv(Some(t)) = o.kind {
+            if t < ntok {
+                recv_of[t].push(i);
+            }
+        }
+    }
+    // (b) FIFO
+    for a in 0..ntok {
+        for b in 0..ntok {
+            if a == b || recv_of[a].is_empty() || recv_of[b].is_empty() {
+                continue;
+            }
+            let (sa, sb) = (send_op_of(ops, a).unwrap(), send_op_of(ops, b).unwrap());
+            if prec(&ops[sa], &ops[sb], wm) {
+                let (ra, rb) = (recv_of[a][0], recv_of[b][0]);
+                if prec(&ops[rb], &ops[ra], wm) {
+                    sim::report(
+                        "C06",
+                        "fifo-order",
+                        &format!("token #{} was completely sent before the send of token #{} began, yet #{} was received (op {}) definitely before #{} (op {})", a, b, b, rb, a, ra),
+                        false,
+                    );
+                }
+            }
+        }
+    }
+    // (c) discard only when five others may be outstanding
+    for (si, s) in ops.iter().enumerate() {
+        if let OpK::Send(st) = s.kind {
+            if !s.discarded {
+                continue;
+            }
+            let mut holders = 0;
+            for v in 0..ntok {
+                if v == st {
+                    continue;
+                }
+                let sv = &ops[send_op_of(ops, v).unwrap()];
+                if prec(s, sv, wm) {
+                    continue; // v's send started definitely after s returned
+                }
+                if recv_of[v].iter().any(|r| prec(&ops[*r], s, wm)) {
+                    continue; // v was completely received definitely before s began
+                }
+                if sv.discarded && prec(sv, s, wm) {
+                    continue; // v itself was discarded definitely before s began
+                }
+                holders += 1;
+            }
+            if holders < 5 {
+                sim::report(
+                    "C06",
+                    "discard-while-not-full",
+                    &format!("send of token #{} (op {}) discarded its value although only {} other values can have been outstanding at any instant of that send", st, si, holders),
+                    false,
+                );
+            }
+        }
+    }
+    // (d) empty
+    for (ri, r) in ops.iter().enumerate() {
+        if r.kind != OpK::Recv(None) {
+            continue;
+        }
+        for v in 0..ntok {
+            let sv = &ops[send_op_of(ops, v).unwrap()];
+            if sv.discarded || !prec(sv, r, wm) {
+                continue;
+            }
+            // every recv that took v began definitely after r returned?
+            if recv_of[v].iter().all(|t| prec(r, &ops[*t], wm)) {
+                sim::report(
+                    "C06",
+                    "empty-while-value-present",
+                    &format!("recv (op {}) reported empty although token #{} had been completely sent before it began and was not taken until after it returned", ri, v),
+                    false,
+                );
+            }
+        }
+    }
+}
+
+fn sequential_script(spec: &RunSpec) -> ! {
+    // exact model: 5-deep FIFO that drops when full
+    let n = 4 + sim::work(28) as usize;
+    let mut script = Vec::new();
+    for _ in 0..n {
+        script.push(sim::work(5) < 3); // true = send
+    }
+    sim::note(&format!("sequential script (true=send): {:?}", script));
+    let cfg = Config { prop: spec.prop.id.to_string(), cas_spurious_pct: if sim::work(2) == 0 { 30 } else { 0 }, ..Config::default() };
+    sim::start(cfg);
+    w().chan = Some(Arc::new(Channel::new()));
+    let mut model: std::collections::VecDeque<usize> = std::collections::VecDeque::new();
+    for (k, is_send) in script.iter().enumerate() {
+        if *is_send {
+            let next_tok = w().toks.len();
+            do_send(false);
+            let discarded = w().ops.last().unwrap().discarded;
+            if model.len() < 5 {
+                if discarded {
+                    sim::report("C06", "discard-while-not-full", &format!("sequential script step {}: send discarded with only {} values queued", k, model.len()), true);
+                }
+                model.push_back(next_tok);
+            } else if !discarded {
+                sim::report("C06", "sixth-value-accepted", &format!("sequential script step {}: a sixth value was accepted", k), true);
+            }
+            if model.len() >= 4 {
+                sim::count(E_CHAN_POS34, 1);
+            }
+        } else {
+            let got = do_recv(false);
+            let want = model.pop_front();
+            if got != want {
+                sim::report("C06", "sequential-model-mismatch", &format!("sequential script step {}: recv returned {:?}, the 5-deep FIFO model says {:?}", k, got, want), true);
+            }
+        }
+    }
+    finish(true)
+}
+
+fn finish(nontrivial: bool) -> ! {
+    // final drain + drop of the channel + conservation
+    sim::set_stop_inject(true);
+    while let Some(_) = do_recv(false) {}
+    check_history();
+    {
+        let _g = ShimGuard::new();
+        let x = w();
+        x.chan_dropping = true;
+    }
+    let ch = w().chan.take().unwrap();
+    match Arc::try_unwrap(ch) {
+        Ok(c) => drop(c),
+        Err(_) => sim::harness_error("channel still shared at the end of the run"),
+    }
+    let _g = ShimGuard::new();
+    let x = w();
+    x.chan_dropping = false;
+    for (i, t) in x.toks.iter().enumerate() {
+        if t.drops != 1 {
+            sim::report("C07", "value-not-dropped-exactly-once", &format!("token #{} was dropped {} times by the end of the run (channel dropped)", i, t.drops), true);
+        }
+        if t.site == 3 {
+            // dropped with the channel although the final drain found the channel empty
+            sim::report("C06", "value-stranded-in-channel", &format!("token #{} was still inside the channel after the final drain reported empty", i), false);
+        }
+    }
+    if nontrivial {
+        sim::mark_nontrivial();
+    }
+    sim::finish_ok()
+}
+
+fn injector() -> Box<dyn FnMut(&InjectCtx) -> bool> {
+    Box::new(|ctx: &InjectCtx| {
+        let kind = {
+            let _g = ShimGuard::new();
+            let x = w();
+            // only while the thread is inside a channel operation (a handler interrupting it)
+            if x.opstack[ctx.tid].is_empty() || x.chan.is_none() {
+                return false;
+            }
+            if x.nested_kinds == 2 {
+                sim::choose(sim::CK_INJECT_WHAT, 2)
+            } else {
+                0
+            }
+        };
+        sim::count(E_CHAN_NESTED, 1);
+        sim::enter_handler();
+        if kind == 0 {
+            do_send(true);
+        } else {
+            do_recv(true);
+        }
+        sim::exit_handler();
+        true
+    })
+}
+
+pub fn run(spec: &RunSpec) -> ! {
+    let world = Box::new(World {
+        seq: 0,
+        ops: Vec::with_capacity(128),
+        toks: Vec::with_capacity(64),
+        opstack: (0..sim::MAX_THREADS).map(|_| Vec::with_capacity(4)).collect(),
+        consuming: vec![false; sim::MAX_THREADS],
+        chan_dropping: false,
+        chan: None,
+        wm: false,
+        nested_kinds: 1,
+        solo_target: None,
+        nested_cost: vec![0; sim::MAX_THREADS],
+    });
+    unsafe { WORLD = Box::into_raw(world) };
+    let sh = sighook_shim::shm::get();
+    sighook_shim::shm::put_str(&mut sh.crash_prop, "C07");
+    let prop = spec.prop.id;
+    if prop == "C08" && spec.run < spec.prop.sweep_runs {
+        sweep_run(spec);
+    }
+    if sim::work(4) == 0 && prop != "C08" {
+        sequential_script(spec);
+    }
+    let nprod = 1 + sim::work(3) as usize;
+    let ncons = 1 + sim::work(2) as usize;
+    let sends: Vec<usize> = (0..nprod).map(|_| 2 + sim::work(6) as usize).collect();
+    let recvs: Vec<usize> = (0..ncons).map(|_| 2 + sim::work(8) as usize).collect();
+    let policy = match sim::work(8) {
+        0 | 1 => Policy::Uniform,
+        2 => Policy::Sticky(5),
+        3 => Policy::Sticky(20),
+        4 => Policy::Sticky(50),
+        5 => Policy::Pct(0),
+        6 => Policy::Pct(1),
+        _ => Policy::Pct(2),
+    };
+    let wm = sim::work(if spec.tier == Tier::Thorough { 3 } else { 4 }) == 0;
+    let inj = [(0u32, 1u32), (1, 12), (1, 6), (1, 3)][sim::work(4) as usize];
+    let spur = [0, 0, 15, 40][sim::work(4) as usize];
+    let nested_kinds = 1 + sim::work(2);
+    let freeze_at = if prop == "C08" && sim::work(2) == 0 { Some(3 + sim::work(60) as u64) } else { None };
+    let cfg = Config {
+        prop: prop.to_string(),
+        policy,
+        silent: false,
+        wm,
+        inject_num: inj.0,
+        inject_den: inj.1,
+        inject_budget: if inj.0 == 0 { 0 } else { 1 + sim::work(3) },
+        max_nest: 1,
+        cas_spurious_pct: spur,
+        step_budget: 20_000,
+        pct_horizon: 120,
+    };
+    sim::note(&format!("producers {:?} consumers {:?} policy {:?} wm {} inject {}/{} spurious {}% nested-kinds {} freeze-at {:?}", sends, recvs, cfg.policy, wm, inj.0, inj.1, spur, nested_kinds, freeze_at));
+    {
+        let x = w();
+        x.wm = wm;
+        x.nested_kinds = nested_kinds;
+    }
+    sim::start(cfg);
+    sim::set_handler_step_limit_for(200, "C08");
+    match catch_unwind(|| Channel::<Tok>::new()) {
+        Ok(c) => w().chan = Some(Arc::new(c)),
+        Err(_) => sim::report("C08", "operation-panicked", "Channel::new panicked", true),
+    }
+    sim::set_injector(injector());
+    if let Some(at) = freeze_at {
+        sim::set_auto_thaw(true);
+        // freeze fault: at step `at`, pause everybody except one thread that is inside an
+        // operation; it must complete on its own; then thaw.
+        let mut state = 0u8;
+        let mut own_at = 0u64;
+        sim::set_step_hook(Box::new(move || {
+            let x = w();
+            match state {
+                0 => {
+                    if sim::steps() >= at {
+                        let n = sim::nthreads();
+                        if let Some(t) = (1..n).find(|t| !x.opstack[*t].is_empty()) {
+                            sim::freeze_all_but(t);
+                            x.solo_target = Some(t);
+                            own_at = sim::thread_own_steps(t);
+                            state = 1;
+                        }
+                    }
+                }
+                1 => {
+                    let t = x.solo_target.unwrap();
+                    if x.opstack[t].is_empty() {
+                        sim::count(E_SOLO_COMPLETIONS, 1);
+                        sim::thaw_all();
+                        state = 2;
+                    } else if sim::thread_own_steps(t) - own_at > 16 + 4 * sim::cas_spurious_fired() + 40 {
+                        sim::report("C08", "operation-needs-other-threads", &format!("with every other thread paused, T{} made {} own steps inside a channel operation without finishing", t, sim::thread_own_steps(t) - own_at), true);
+                    }
+                }
+                _ => {}
+            }
+        }));
+    }
+    let mut tids = Vec::new();
+    for n in sends.iter().copied() {
+        tids.push(sim::spawn("producer", move || {
+            for _ in 0..n {
+                do_send(false);
+            }
+        }));
+    }
+    for n in recvs.iter().copied() {
+        tids.push(sim::spawn("consumer", move || {
+            for _ in 0..n {
+                do_recv(false);
+            }
+        }));
+    }
+    for t in tids {
+        sim::join(t);
+    }
+    let c = &sighook_shim::shm::get().counters;
+    let nontrivial = c[E_CAS_REAL_FAIL] > 0 || c[E_CHAN_NESTED] > 0 || c[E_SOLO_COMPLETIONS] > 0 || (prop == "C08" && c[sim::C_CAS_SPUR] > 0);
+    if c[E_CHAN_FULL_DISCARD] > 0 {
+        sim::count(E_CHAN_POS34, 1);
+    }
+    finish(nontrivial)
+}
+
+// ---------------------------------------------------------------------------------------------
+// C08 sweep
+
+fn sweep_run(spec: &RunSpec) -> ! {
+    // index layout: state(6) x op(2) x sp index(10) x nested(3) x spur(3) = 1080 ... x4 repeats of
+    // the seeded spurious pattern = 4320
+    let mut r = spec.run;
+    let rep = r % 4;
+    r /= 4;
+    let spur = [0u32, 30, 60][(r % 3) as usize];
+    r /= 3;
+    let nested = (r % 3) as u32; // 0 none, 1 send, 2 recv
+    r /= 3;
+    let idx = 1 + r % 10;
+    r /= 10;
+    let op_is_send = r % 2 == 0;
+    r /= 2;
+    let state = r % 6;
+    sim::note(&format!(
+        "C08 sweep: state {} op {} sp-index {} nested {} spurious {}% rep {}",
+        ["empty", "one", "four", "full", "other-thread-frozen-mid-send", "other-thread-frozen-mid-recv"][state as usize],
+        if op_is_send { "send" } else { "recv" },
+        idx,
+        ["none", "send", "recv"][nested as usize],
+        spur,
+        rep
+    ));
+    // burn `rep` draws so that the seeded spurious pattern differs between repetitions
+    for _ in 0..rep {
+        sim::work(2);
+    }
+    let cfg = Config {
+        prop: "C08".into(),
+        policy: Policy::Sticky(0),
+        silent: false,
+        wm: false,
+        inject_num: 1,
+        inject_den: 1,
+        inject_budget: if nested == 0 { 0 } else { 1 },
+        max_nest: 1,
+        cas_spurious_pct: spur,
+        step_budget: 5_000,
+        pct_horizon: 50,
+    };
+    sim::start(cfg);
+    sim::set_handler_step_limit_for(120, "C08");
+    // Channel::new itself under spurious failures must not panic
+    let c = catch_unwind(|| Channel::<Tok>::new());
+    match c {
+        Ok(c) => w().chan = Some(Arc::new(c)),
+        Err(_) => sim::report("C08", "operation-panicked", "Channel::new panicked", true),
+    }
+    w().nested_kinds = 2;
+    let pre = match state {
+        0 => 0,
+        1 => 1,
+        2 => 4,
+        3 => 5,
+        _ => 2,
+    };
+    for _ in 0..pre {
+        do_send(false);
+    }
+    // states 4/5: another thread is frozen in the middle of an operation
+    if state >= 4 {
+        let mid_send = state == 4;
+        let t = sim::spawn("frozen-peer", move || {
+            if mid_send {
+                do_send(false);
+            } else {
+                do_recv(false);
+            }
+        });
+        // run the peer for 3 own steps (past its first CAS), then freeze it
+        sim::run_until_own(t, 3);
+        sim::freeze(t);
+    }
+    let me_ops_before = w().ops.len();
+    if nested != 0 {
+        let k = nested;
+        sim::set_injector(Box::new(move |ctx: &InjectCtx| {
+            if w().opstack[ctx.tid].is_empty() {
+                return false;
+            }
+            sim::count(E_CHAN_NESTED, 1);
+            sim::enter_handler();
+            if k == 1 {
+                do_send(true);
+            } else {
+                do_recv(true);
+            }
+            sim::exit_handler();
+            true
+        }));
+        sim::set_inject_at(0, sim::own_steps() + idx);
+    }
+    if op_is_send {
+        do_send(false);
+    } else {
+        do_recv(false);
+    }
+    let _ = me_ops_before;
+    sim::thaw_all();
+    let c = &sighook_shim::shm::get().counters;
+    let hit = nested == 0 || c[E_CHAN_NESTED] > 0;
+    if !hit {
+        sim::count(E_SWEEP_OUT_OF_RANGE, 1);
+    }
+    // let a frozen peer finish so that conservation can be checked
+    let n = sim::nthreads();
+    for t in 1..n {
+        sim::join(t);
+    }
+    finish(hit && (nested != 0 || spur > 0 || state >= 4))
+}
+
